@@ -184,12 +184,16 @@ impl Directive {
             }
             Directive::Org => {
                 if let DirectiveOps::OpList(values) = opts {
-                    if let Some(Operand::E(Expr::Const(value))) = values.first() {
+                    if let Some(Operand::E(expr)) = values.first() {
+                        let value = expr.run(&context.common_context)?;
+                        if value < 0 || value > u32::MAX as i64 {
+                            bail!("address {} of .org is out of range, {}", value, point);
+                        }
                         if !context.last_segment().unwrap().borrow().is_empty() {
                             let current_type = context.last_segment().unwrap().borrow().t;
                             context.add_segment(Segment::new(current_type));
                         }
-                        context.last_segment().unwrap().borrow_mut().address = *value as u32;
+                        context.last_segment().unwrap().borrow_mut().address = value as u32;
                     }
                 } else {
                     bail!("wrong format for .org, expected: {} in {}", opts, point,);
